@@ -91,7 +91,7 @@ def run(tier):
         report.fail({"site": "proof", "kind": "obligation-broken"},
                     {"no_failing_input": True, "what_no_longer_checks": broken, "theorems": names,
                      "searched": "all coherence checks evaluated in the extracted code and the complete API sweep: no incoherent row"})
-    report.assumptions = ["Spec/Iso.v all_isos is used as a decision procedure; its completeness (needed for 'different codes are different molecules') is not yet proved in Coq: that clause is partial",
+    report.assumptions = ["Spec/Iso.v all_isos is the decision procedure; it lists exactly the constitution isomorphisms (Props/C08 C08_isomorphism_search_is_exact), so a negative answer is a proof of difference",
                           "reference compositions of the sugar classes are hand-written textbook values (Model/Library.v class_formula)"]
     extra = {"rule": "exhaustive: every row of the three tables (theorem) and every key x ring letter x anomer, its own and the opposite D/L prefix, and '-ol' where defined, through Glycan(...) (API sweep); distinct = distinct request strings",
              "exhaustive": True, "rows": len(table), "api_requests": n_api,
